@@ -302,10 +302,61 @@ def builtin_arg_type_mismatch(prog):
                         return True
                 elif want != k:
                     return True
+        # element operand of array_push / array_set: its kind must be the array's element kind
+        if e and e[0] == "bi" and e[1] in ("array_push", "array_set") and e[2] and isinstance(e[2][0], tuple) and e[2][0][0] == "var":
+            at_ = names.get(e[2][0][1])
+            if isinstance(at_, tuple) and at_[0] == "array":
+                want = at_[1] if isinstance(at_[1], str) else "other"
+                k = _static_kind(e[2][-1], names, funcs)
+                if k is not None and k != want:
+                    return True
     return False
 
 
 ALL["builtin_arg_type_mismatch"] = builtin_arg_type_mismatch
+
+
+def global_read_before_init(prog):
+    """A global's initialiser calls a function that mentions a global defined at or after it (the value is read before
+    its initialiser ran: void on the VM, zero natively)."""
+    order = [n for (n, _t, _e) in prog["globals"]]
+    bodies = {f["name"]: f["body"] for f in prog["funcs"]}
+
+    def mentions(node, names):
+        if isinstance(node, tuple):
+            if len(node) >= 2 and node[0] in ("var", "set") and node[1] in names:
+                return True
+            return any(mentions(x, names) for x in node)
+        if isinstance(node, list):
+            return any(mentions(x, names) for x in node)
+        return False
+
+    def callees(node, acc):
+        if isinstance(node, tuple):
+            if len(node) >= 2 and node[0] == "call" and isinstance(node[1], str):
+                acc.add(node[1])
+            for x in node:
+                callees(x, acc)
+        elif isinstance(node, list):
+            for x in node:
+                callees(x, acc)
+        return acc
+
+    for i, (n, _t, e) in enumerate(prog["globals"]):
+        later = set(order[i:])
+        seen, todo = set(), list(callees(e, set()))
+        while todo:
+            fn = todo.pop()
+            if fn in seen or fn not in bodies:
+                continue
+            seen.add(fn)
+            if mentions(bodies[fn], later):
+                return True
+            todo += list(callees(bodies[fn], set()))
+    return False
+
+
+ALL["global_read_before_init"] = global_read_before_init
 
 
 def array_push_used(prog):
